@@ -75,6 +75,10 @@ impl egg::CostFunction<Expr> for CostFn<'_> {
             // each operator has a cost of 0.1
             _ => enode.fold(0.1, |sum, id| sum + costs(&id)),
         };
+        // With huge row estimates the arithmetic above can yield NaN (e.g. 0 * inf), which the
+        // extractor cannot order (it unwraps `partial_cmp`): such a plan is as bad as an
+        // infinitely expensive one.
+        let c = if c.is_nan() { f32::INFINITY } else { c };
         debug!(
             "{id}\t{enode:?}\tcost={c}, rows={}, cols={}",
             rows(id),
